@@ -1057,6 +1057,7 @@ class Unit:
             mfp = re.search(r"<\s*(\w+)\s*:\s*(?:num_traits::)?Float\s*>", text_of(toks[:find_fn_parts(toks)["params_open"]]))
             self.r16_fp = mfp.group(1) if mfp else None
         toks = self.r16_inline_helpers(toks, rel, it, None if free else cands_impl(self, spec), spec["name"])
+        toks = self.r17_param_patterns(toks)
         toks = self.r6b_local_consts(toks, rel)
         if self.mode == "ideal":
             if free:
@@ -1366,6 +1367,36 @@ class Unit:
         pre += "".join("let %s%s: %s = %s__%s; " % ("mut " if mu else "", pn, ty, pn, name) for pn, ty, mu in params)
         # parenthesised: a block in statement position followed by an operator would otherwise end the statement
         out = L.lex("({ " + pre) + list(body) + L.lex(" })")
+        return out
+
+    def r17_param_patterns(self, toks):
+        """R17: a parameter written as a tuple pattern, `fn f((a, b): (T, U))`, becomes a plainly named parameter destructured by
+        the first statement of the body, `fn f(p__arg0: (T, U)) { let (a, b) = p__arg0; ..` (what Rust defines it as; Verus wants
+        plain identifiers in parameter position)"""
+        parts = find_fn_parts(toks)
+        po, pc = parts["params_open"], parts["params_close"]
+        pre = []
+        edits = []
+        for k, (a, b) in enumerate(_split_top(toks, po + 1, pc, ",")):
+            i = L.skip_trivia(toks, a, b)
+            if i >= b or not (toks[i].kind == L.PUNCT and toks[i].text == "("):
+                continue
+            close = L.match_close(toks, i)
+            j = L.skip_trivia(toks, close + 1, b)
+            if j >= b or toks[j].text != ":":
+                continue
+            name = "p__arg%d" % k
+            edits.append((i, close, name))
+            pre.append("let %s = %s;" % (text_of(toks[i:close + 1]), name))
+        if not edits:
+            return toks
+        out = list(toks)
+        bo = parts["body_open"]
+        ins = [t for t in L.lex(" " + " ".join(pre) + " ")]
+        out = out[:bo + 1] + ins + out[bo + 1:]
+        for i, close, name in sorted(edits, reverse=True):
+            out = out[:i] + [L.Tok(L.IDENT, name, toks[i].line)] + out[close + 1:]
+        self.log["rules"]["R17"] = self.log["rules"].get("R17", 0) + len(edits)
         return out
 
     def r6b_local_consts(self, toks, rel):
